@@ -613,6 +613,36 @@ class C19(PropBase):
         dist["Q_ppc64_ctx"] = dist.get("Q_ppc64_ctx", 0) + 1
         return "Q 32770 %d %d %d 0 0 %d %d W %s - - - %s" % (os_, code, flags, a, a, " ".join(map(str, ctx)), self.fmt_regs(kind, regs))
 
+    def gen_q_ctx32(self, rng, dist):
+        """a dump of a 32-bit architecture (x86, x86-on-win64, arm, mips, ppc, sparc) whose exception stream points at a readable thread
+        context of that architecture (CONTEXT_MIPS / CONTEXT_SPARC keep u64 register fields); the crash address is one bit away from NULL
+        or from a mapped region: no candidate may be reported for a 32-bit dump"""
+        arch = rng.choice([0, 10, 5, 1, 1, 3, 0x8001, 0x8001])
+        os_ = rng.choice([0, 1, 1, 2, 3, 4])
+        kind = rng.below(2) if os_ == 1 else 0
+        if os_ == 0:
+            code, flags, nparams, info0 = 0xC0000005, 0, rng.choice([0, 2]), rng.choice([0, 1, 8])
+        else:
+            code, flags, nparams, info0 = rng.choice([(11, 1), (11, 2), (7, 2), (4, 0), (1, 1)]) + (0, 0)
+        regs = []
+        for _ in range(rng.range(1, 3)):
+            lo = (rng.below(1 << 31) | 0x10000) & ~0xfff
+            size = rng.choice([0x1000, 0x2000, 8, 1 << 16])
+            if kind == 0:
+                regs.append((lo, size, rng.choice([2, 4, 0x20, 0x40])))
+            else:
+                regs.append((lo, lo + size - 1, rng.choice([4, 6, 5, 7])))
+        st = rng.below(3)
+        if st == 0:
+            a = 1 << rng.below(32)                                   # one bit away from NULL
+        else:
+            a = (regs[0][0] + rng.below(8)) ^ (1 << rng.below(32 if st == 1 else 64))
+        a &= 0xffffffff if rng.chance(3, 4) else U64
+        pc = rng.below(1 << 31) & ~3
+        sp = (rng.below(1 << 31) | 0x1000) & ~7
+        dist["Q_ctx32"] = dist.get("Q_ctx32", 0) + 1
+        return "Q %d %d %d %d %d %d %d %d N %d %d - - - %s" % (arch, os_, code, flags, nparams, info0, a, a, pc, sp, self.fmt_regs(kind, regs))
+
     def gen_cases(self, tier, seed):
         rng = Rng(seed)
         cases = []
@@ -741,6 +771,9 @@ class C19(PropBase):
         for _ in range(600 if tier == "quick" else 6000):
             cases.append(self.gen_q_ppc64(rng, dist))
             dist["Q"] = dist.get("Q", 0) + 1
+        for _ in range(600 if tier == "quick" else 6000):
+            cases.append(self.gen_q_ctx32(rng, dist))
+            dist["Q"] = dist.get("Q", 0) + 1
         return cases, dist, False
 
     def canon_impl(self, case, ans, profile):
@@ -834,6 +867,8 @@ class C19(PropBase):
             i += 1
         elif t[i] == "W":
             i += 40        # ppc64 context: no register pass on this platform
+        elif t[i] == "N":
+            i += 3         # raw context of a 32-bit architecture (pc sp): nothing may be reported at all
         else:
             ctx = [int(x) for x in t[i + 1:i + 18]]
             i += 18
